@@ -308,8 +308,8 @@ def query_cases(draw, tier="quick", big=False):
     metric = draw(st.sampled_from(["minkowski", "haversine"]))
     kind = "arc" if metric == "haversine" else "chord"
     if big:
-        hi = 13 if tier == "quick" else 125
-        tile = {"copies": (2, hi)}
+        tile = {"copies": [(2, 13), (1, 13)] if tier == "quick"
+                else [(2, 125), (1, 10)]}
         sizes = [(10, 40), (1, 12)]
     else:
         tile = draw(st.sampled_from([None, None, None, {"copies": (1, 4)}]))
